@@ -217,12 +217,19 @@ def compile_cxx(src, extra_flags=(), fuzz=False):
 
 def link(out, objs, libs=(), wraps=(), fuzz=False, extra=()):
     os.makedirs(os.path.dirname(out), exist_ok=True)
-    cmd = ["clang++"] + SAN + (["-fsanitize=fuzzer"] if fuzz else []) + ["-o", out] + list(objs)
+    # link to a private name and rename: another check may be executing (or linking) the same binary right now
+    tmp = out + ".tmp%d" % os.getpid()
+    cmd = ["clang++"] + SAN + (["-fsanitize=fuzzer"] if fuzz else []) + ["-o", tmp] + list(objs)
     for w in wraps:
         cmd.append("-Wl,--wrap=" + w)
     cmd += list(extra) + list(libs)
     r = sh(cmd, capture_output=True, text=True)
     if r.returncode != 0:
         sys.stderr.write("LINK FAILED: %s\n%s\n" % (out, r.stderr))
+        try:
+            os.unlink(tmp)
+        except OSError:
+            pass
         raise SystemExit(4)
+    os.replace(tmp, out)
     return out
